@@ -14,6 +14,7 @@ CONSTANTS
   Confs = {"implementation"}
   SurroundLevel = 0
   SrcMax = 1
+  ImpMax = 2
   Units = {"class", "interface", "enum"}
   ExtraImports = {"java.util.List", "com.vendor.org.a.Thing"}
 INVARIANTS C19_NoPanic C19_ExtractedExact C19_PrefixExact C19_OtherNotationsSkipped C19_UnusedExact Emit
